@@ -86,6 +86,10 @@ Tables ==
              ps == {<<JSONM>>, <<XMLM>>}
              rts == {[R0("POST", "/a") EXCEPT !.cons = c, !.prod = p] : c \in cs, p \in ps}
          IN {<<Svc("/r", <<p[1], p[2]>>)>> : p \in {x \in rts \X rts : x[1] # x[2]}}
+    [] Mode = "sufroot" ->
+         \* a WebService on "/" next to services whose root path has a {v}suffix token / a regex parameter; routes with a {v}suffix token
+         LET rts == {<<R0("GET", "/a")>>, <<R0("GET", "/{x}")>>, <<R0("GET", "/{s}.f")>>} IN
+         {<<Svc("/", a), Svc(r2, b)>> : r2 \in {"/{w}.f", "/{w:[0-9]+}"}, a \in {<<R0("GET", "/{x}/a")>>, <<R0("GET", "/{x}/{y}")>>}, b \in rts}
     [] Mode = "order3" ->
          \* three routes of one service that can all match one URL (ranking beyond the best match)
          LET pool == SetToSeq(Routes1({"/a/b", "/a/{x}", "/{x}/b", "/{x}/{y}"}, {"GET", "PUT"})) IN
@@ -140,7 +144,7 @@ DerivedPaths(T) ==
                         w \in 1..Len(T)}
       \* ... and, for the root pools, templates of DIFFERENT services (URLs two roots both claim)
       AllR == UNION {{<<w, r>> : r \in 1..Len(T[w].routes)} : w \in 1..Len(T)}
-      cross == IF Mode \in {"roots", "roots4"}
+      cross == IF Mode \in {"roots", "roots4", "sufroot"}
                THEN UNION {MixInstances(T[p[1][1]].routes[p[1][2]].pt, T[p[2][1]].routes[p[2][2]].pt, 1) :
                              p \in {x \in AllR \X AllR : x[1][1] < x[2][1] /\
                                       Len(T[x[1][1]].routes[x[1][2]].pt) = Len(T[x[2][1]].routes[x[2][2]].pt)}}
